@@ -33,10 +33,16 @@ theorem brLe_to_argsIgn (hD : D.Wf) {le eq : DHint → DHint → R} {a b : DHint
   | annotated h m => exact absurd rfl (hna h m)
   | tupleFixed hs => exact (hfix hs rfl).elim
   | cls c => have e : c = origin b := ho; simp [brLe, hb, ← e, hD.sub_refl]
-  | cont k o h => have e : o = origin b := ho; simp [brLe, brBase, hb, origin, ← e, hD.sub_refl]
-  | mapping o k v => have e : o = origin b := ho; simp [brLe, brBase, hb, origin, ← e, hD.sub_refl]
-  | tupleVar h => have e : cTuple = origin b := ho; simp [brLe, brBase, hb, origin, ← e, hD.sub_refl]
-  | callable o ell ps r => have e : o = origin b := ho; simp [brLe, hb, origin, ← e, hD.sub_refl]
+  | cont k o h =>
+    have hs : D.W.sub (origin (.cont k o h)) (origin b) = true := by rw [ho]; exact hD.sub_refl _
+    simp [brLe, brBase, hs, hb]
+  | mapping o k v =>
+    have hs : D.W.sub (origin (.mapping o k v)) (origin b) = true := by rw [ho]; exact hD.sub_refl _
+    simp [brLe, brBase, hs, hb]
+  | tupleVar h =>
+    have hs : D.W.sub (origin (.tupleVar h)) (origin b) = true := by rw [ho]; exact hD.sub_refl _
+    simp [brLe, brBase, hs, hb]
+  | callable o ell ps r => have e : o = origin b := ho; simp [brLe, hb, ← e, hD.sub_refl]
 
 /-- two args-ignorable hints with the same proper origin are mutual subhints (one level suffices) -/
 theorem le_of_argsIgn_origin (hD : D.Wf) {x y : DHint} (hk : instOf x x = true) (hx : argsIgn D x = true) (hy : argsIgn D y = true)
@@ -59,5 +65,242 @@ theorem le_of_argsIgn_origin (hD : D.Wf) {x y : DHint} (hk : instOf x x = true) 
     exact brLe_to_argsIgn D hD hxa hxu hxl hxn (fun _ => Or.inr trivial) hy ho hxf
   · rw [leF_one D hya hyu hyl hxa hxu]
     exact brLe_to_argsIgn D hD hya hyu hyl hyn (fun _ => Or.inr trivial) hx ho.symm hyf
+
+theorem brBase_struct_true {le : DHint → DHint → R} {a b : DHint} (hs : D.W.sub (origin a) (origin b) = true)
+    (hi : instOf b a = true) (hl : (children a).length = (children b).length)
+    (hz : zipAllE le (children a) (children b) = .ok true) : brBase D le a b = .ok true := by
+  unfold brBase
+  simp only [hs, Bool.not_true, Bool.false_eq_true, ↓reduceIte, hi, hl, bne_self_eq_false, hz]
+  split <;> rfl
+
+theorem mem_zip_swap : ∀ (as bs : List DHint) (p : DHint × DHint), p ∈ bs.zip as → (p.2, p.1) ∈ as.zip bs
+  | [], bs, p, h => by simp at h
+  | _ :: _, [], p, h => by simp at h
+  | a :: as, b :: bs, p, h => by
+    simp only [List.zip_cons_cons, List.mem_cons] at h ⊢
+    rcases h with e | e
+    · subst e; exact Or.inl rfl
+    · exact Or.inr (mem_zip_swap as bs p e)
+
+theorem sameSign_facts {x y : DHint} (h : sameSign x y = true) :
+    instOf x x = true ∧ instOf y y = true ∧ instOf y x = true ∧ instOf x y = true ∧ origin x = origin y := by
+  cases x <;> cases y <;> simp_all [sameSign, instOf, origin]
+
+theorem sub_kind_facts {x : DHint} (h : instOf x x = true) :
+    x.isAny = false ∧ x.isUnionLike = false ∧ x.isLiteral = false ∧
+    ∀ (le eq : DHint → DHint → R) (c : DHint), brLe D le eq x c = brBase D le x c := by
+  cases x <;> simp_all [instOf, isAny, isUnionLike, isLiteral, brLe]
+
+/-- the `SubscriptedTypeHint._is_equal` case of `eq_imp_le` -/
+theorem eq_sub_case (hD : D.Wf) {k : Nat} {x y : DHint} (hk : instOf x x = true) (ho : origin x ≠ cObject)
+    (hb : (if (argsIgn D x && argsIgn D y) = true then (.ok (origin x == origin y) : R)
+         else if (!sameSign x y || (children x).length != (children y).length) = true then .ok false
+         else zipAllE (eqF D k) (children x) (children y)) = .ok true)
+    (ih : sameSign x y = true → ∀ p ∈ (children x).zip (children y), eqF D k p.1 p.2 = .ok true →
+      ∃ m, leF D m p.1 p.2 = .ok true ∧ leF D m p.2 p.1 = .ok true) :
+    ∃ m, leF D m x y = .ok true ∧ leF D m y x = .ok true := by
+  split at hb
+  · rename_i hig
+    simp only [Bool.and_eq_true] at hig
+    exact ⟨1, le_of_argsIgn_origin D hD hk hig.1 hig.2 (by simpa using hb) ho⟩
+  split at hb
+  · cases hb
+  rename_i hss
+  simp only [Bool.or_eq_true, Bool.not_eq_true', bne_iff_ne, ne_eq, not_or, Bool.not_eq_false, Decidable.not_not] at hss
+  obtain ⟨hsign, hlen⟩ := hss
+  rw [zipAllE_true hlen] at hb
+  replace ih := ih hsign
+  -- a common fuel for all children
+  have hall : ∃ m, ∀ p ∈ (children x).zip (children y), leF D m p.1 p.2 = .ok true ∧ leF D m p.2 p.1 = .ok true := by
+    generalize (children x).zip (children y) = ps at hb ih
+    induction ps with
+    | nil => exact ⟨0, by simp⟩
+    | cons p ps ihp =>
+      obtain ⟨m1, h1⟩ := ih p (by simp) (hb p (by simp))
+      obtain ⟨m2, h2⟩ := ihp (fun q hq => hb q (by simp [hq])) (fun q hq => ih q (by simp [hq]))
+      refine ⟨max m1 m2, ?_⟩
+      intro q hq
+      rcases List.mem_cons.mp hq with e | e
+      · subst e
+        exact ⟨leF_up D (Nat.le_max_left _ _) h1.1, leF_up D (Nat.le_max_left _ _) h1.2⟩
+      · exact ⟨leF_up D (Nat.le_max_right _ _) (h2 q e).1, leF_up D (Nat.le_max_right _ _) (h2 q e).2⟩
+  obtain ⟨m, hm⟩ := hall
+  obtain ⟨_, hky, hyx, hxy, hoo⟩ := sameSign_facts hsign
+  obtain ⟨hxa, hxu, hxl, hbx⟩ := sub_kind_facts D hk
+  obtain ⟨hya, hyu, hyl, hby⟩ := sub_kind_facts D hky
+  refine ⟨m + 1, ?_, ?_⟩
+  · rw [leF_one D hxa hxu hxl hya hyu, hbx]
+    refine brBase_struct_true D (by rw [hoo]; exact hD.sub_refl _) hyx hlen ?_
+    rw [zipAllE_true hlen]
+    exact fun p hp => (hm p hp).1
+  · rw [leF_one D hya hyu hyl hxa hxu, hby]
+    refine brBase_struct_true D (by rw [hoo]; exact hD.sub_refl _) hxy hlen.symm ?_
+    rw [zipAllE_true hlen.symm]
+    intro p hp
+    exact (hm _ (mem_zip_swap _ _ p hp)).2
+
+/-- **`==` implies mutual `is_subhint`** (at some fuel, hence at every deciding fuel) -/
+theorem eq_imp_le (hD : D.Wf) : ∀ (k : Nat) (x y : DHint), x.Proper → eqF D k x y = .ok true →
+    ∃ m, leF D m x y = .ok true ∧ leF D m y x = .ok true
+  | 0, _, _, _, h => by simp [eqF] at h
+  | k + 1, x, y, hp, h => by
+    have base : andE (leF D k x y) (leF D k y x) = .ok true → ∃ m, leF D m x y = .ok true ∧ leF D m y x = .ok true :=
+      fun hb => ⟨k, andE_true.mp hb⟩
+    cases x with
+    | cont kk o hx =>
+      simp only [DHint.Proper] at hp
+      refine eq_sub_case D hD rfl (by simpa [origin] using hp.1) (by simpa [eqF, eqBody] using h) ?_
+      intro hs p hpm he
+      cases y with
+      | cont kk' o' hy =>
+        simp only [children, List.zip_cons_cons, List.zip_nil_right, List.mem_cons, List.not_mem_nil, or_false] at hpm
+        subst hpm; exact eq_imp_le hD k _ _ hp.2 he
+      | _ => simp [sameSign] at hs
+    | tupleVar hx =>
+      simp only [DHint.Proper] at hp
+      refine eq_sub_case D hD rfl (by simp [origin, cTuple, cObject]) (by simpa [eqF, eqBody] using h) ?_
+      intro hs p hpm he
+      cases y with
+      | tupleVar hy =>
+        simp only [children, List.zip_cons_cons, List.zip_nil_right, List.mem_cons, List.not_mem_nil, or_false] at hpm
+        subst hpm; exact eq_imp_le hD k _ _ hp he
+      | _ => simp [sameSign] at hs
+    | mapping o kx vx =>
+      simp only [DHint.Proper] at hp
+      refine eq_sub_case D hD rfl (by simpa [origin] using hp.1) (by simpa [eqF, eqBody] using h) ?_
+      intro hs p hpm he
+      cases y with
+      | mapping o' ky vy =>
+        simp only [children, List.zip_cons_cons, List.zip_nil_right, List.mem_cons, List.not_mem_nil, or_false] at hpm
+        rcases hpm with e | e
+        · subst e; exact eq_imp_le hD k _ _ hp.2.1 he
+        · subst e; exact eq_imp_le hD k _ _ hp.2.2 he
+      | _ => simp [sameSign] at hs
+    | annotated hx md =>
+      simp only [DHint.Proper] at hp
+      cases y with
+      | annotated hy md' =>
+        simp only [eqF, eqBody, andE_true, Except.ok.injEq, beq_iff_eq] at h
+        obtain ⟨m, h1, h2⟩ := eq_imp_le hD k hx hy hp h.1
+        refine ⟨m + 1, ?_, ?_⟩
+        · rw [leF_one D rfl rfl rfl rfl rfl]; simp [brLe, guardE, h1, h.2]
+        · rw [leF_one D rfl rfl rfl rfl rfl]; simp [brLe, guardE, h2, h.2]
+      | _ => simp [eqF, eqBody] at h
+    | any => exact base (by simpa [eqF, eqBody] using h)
+    | cls _ => exact base (by simpa [eqF, eqBody] using h)
+    | union _ => exact base (by simpa [eqF, eqBody] using h)
+    | typevar _ => exact base (by simpa [eqF, eqBody] using h)
+    | literal _ => exact base (by simpa [eqF, eqBody] using h)
+    | tupleFixed _ => exact base (by simpa [eqF, eqBody] using h)
+    | callable _ _ _ _ => exact base (by simpa [eqF, eqBody] using h)
+
+/-! ### antisymmetry on rigid hints: equal wrappers wrap the same hint -/
+
+theorem brBase_true_inv {le : DHint → DHint → R} {a b : DHint} (h : brBase D le a b = .ok true) (hb : argsIgn D b = false) :
+    D.W.sub (origin a) (origin b) = true ∧ instOf b a = true ∧ (children a).length = (children b).length ∧
+      zipAllE le (children a) (children b) = .ok true := by
+  unfold brBase at h
+  split at h
+  · cases h
+  rename_i hs
+  simp only [hb, Bool.false_eq_true, ↓reduceIte] at h
+  split at h
+  · cases h
+  rename_i hi
+  split at h
+  · cases h
+  rename_i hl
+  exact ⟨by simpa using hs, by simpa using hi, by simpa using hl, h⟩
+
+theorem rigid_facts {a : DHint} (h : a.Rigid D) :
+    a.isAny = false ∧ a.isUnionLike = false ∧ a.isLiteral = false := by
+  cases a <;> simp_all [DHint.Rigid, isAny, isUnionLike, isLiteral]
+
+theorem antisym_rigid (hD : D.Wf) (anti : ∀ c d, D.W.sub c d = true → D.W.sub d c = true → c = d) :
+    ∀ (m : Nat) (a b : DHint), a.Rigid D → b.Rigid D → leF D m a b = .ok true → leF D m b a = .ok true → a.erase = b.erase
+  | 0, _, _, _, _, h, _ => by simp [leF] at h
+  | m + 1, a, b, ha, hb, h1, h2 => by
+    obtain ⟨haa, hau, hal⟩ := rigid_facts D ha
+    obtain ⟨hba, hbu, hbl⟩ := rigid_facts D hb
+    rw [leF_one D haa hau hal hba hbu] at h1
+    rw [leF_one D hba hbu hbl haa hau] at h2
+    cases a with
+    | cls c =>
+      cases b with
+      | cls d =>
+        simp only [brLe, Except.ok.injEq, Bool.and_eq_true, origin] at h1 h2
+        rw [anti c d h1.2 h2.2]
+      | cont k o h => simp_all [brLe, argsIgn, children, ignAll, DHint.Rigid]
+      | mapping o k v => simp_all [brLe, argsIgn, children, ignAll, DHint.Rigid]
+      | tupleVar h => simp_all [brLe, argsIgn, children, ignAll, DHint.Rigid]
+      | _ => simp [DHint.Rigid] at hb
+    | cont k o h =>
+      simp only [DHint.Rigid] at ha
+      have hia : argsIgn D (.cont k o h) = false := by simp [argsIgn, children, ignAll, ha.2]
+      cases b with
+      | cls d => simp [brLe, hia] at h2
+      | cont k' o' h' =>
+        simp only [DHint.Rigid] at hb
+        have hib : argsIgn D (.cont k' o' h') = false := by simp [argsIgn, children, ignAll, hb.2]
+        obtain ⟨s1, _, _, z1⟩ := brBase_true_inv D (by simpa [brLe] using h1) hib
+        obtain ⟨s2, _, _, z2⟩ := brBase_true_inv D (by simpa [brLe] using h2) hia
+        simp only [children, zipAllE, andE_true, and_true, origin] at z1 z2 s1 s2
+        simp only [DHint.erase]
+        rw [anti o o' s1 s2, antisym_rigid hD anti m h h' ha.1 hb.1 z1 z2]
+      | mapping o' k' v' =>
+        simp only [DHint.Rigid] at hb
+        have hib : argsIgn D (.mapping o' k' v') = false := by simpa [argsIgn, children, ignAll] using hb.2.2
+        have := (brBase_true_inv D (by simpa [brLe] using h1) hib).2.2.1
+        simp [children] at this
+      | tupleVar h' =>
+        have := (brBase_true_inv D (by simpa [brLe] using h2) hia).2.1
+        simp [instOf] at this
+      | _ => simp [DHint.Rigid] at hb
+    | mapping o k v =>
+      simp only [DHint.Rigid] at ha
+      have hia : argsIgn D (.mapping o k v) = false := by simpa [argsIgn, children, ignAll] using ha.2.2
+      cases b with
+      | cls d => simp [brLe, hia] at h2
+      | mapping o' k' v' =>
+        simp only [DHint.Rigid] at hb
+        have hib : argsIgn D (.mapping o' k' v') = false := by simpa [argsIgn, children, ignAll] using hb.2.2
+        obtain ⟨s1, _, _, z1⟩ := brBase_true_inv D (by simpa [brLe] using h1) hib
+        obtain ⟨s2, _, _, z2⟩ := brBase_true_inv D (by simpa [brLe] using h2) hia
+        simp only [children, zipAllE, andE_true, and_true, origin] at z1 z2 s1 s2
+        simp only [DHint.erase]
+        rw [anti o o' s1 s2, antisym_rigid hD anti m k k' ha.1 hb.1 z1.1 z2.1,
+          antisym_rigid hD anti m v v' ha.2.1 hb.2.1 z1.2 z2.2]
+      | cont k' o' h' =>
+        have := (brBase_true_inv D (by simpa [brLe] using h2) hia).2.2.1
+        simp [children] at this
+      | tupleVar h' =>
+        have := (brBase_true_inv D (by simpa [brLe] using h2) hia).2.2.1
+        simp [children] at this
+      | _ => simp [DHint.Rigid] at hb
+    | tupleVar h =>
+      simp only [DHint.Rigid] at ha
+      have hia : argsIgn D (.tupleVar h) = false := by simp [argsIgn, children, ignAll, ha.2]
+      cases b with
+      | cls d => simp [brLe, hia] at h2
+      | tupleVar h' =>
+        simp only [DHint.Rigid] at hb
+        have hib : argsIgn D (.tupleVar h') = false := by simp [argsIgn, children, ignAll, hb.2]
+        obtain ⟨_, _, _, z1⟩ := brBase_true_inv D (by simpa [brLe] using h1) hib
+        obtain ⟨_, _, _, z2⟩ := brBase_true_inv D (by simpa [brLe] using h2) hia
+        simp only [children, zipAllE, andE_true, and_true] at z1 z2
+        simp only [DHint.erase]
+        rw [antisym_rigid hD anti m h h' ha.1 hb.1 z1 z2]
+      | cont k' o' h' =>
+        simp only [DHint.Rigid] at hb
+        have hib : argsIgn D (.cont k' o' h') = false := by simp [argsIgn, children, ignAll, hb.2]
+        have := (brBase_true_inv D (by simpa [brLe] using h1) hib).2.1
+        simp [instOf] at this
+      | mapping o' k' v' =>
+        simp only [DHint.Rigid] at hb
+        have hib : argsIgn D (.mapping o' k' v') = false := by simpa [argsIgn, children, ignAll] using hb.2.2
+        have := (brBase_true_inv D (by simpa [brLe] using h1) hib).2.1
+        simp [instOf] at this
+      | _ => simp [DHint.Rigid] at hb
+    | _ => simp [DHint.Rigid] at ha
 
 end BearVerif.Door
